@@ -179,7 +179,7 @@ CLAIMS = {
     technique="Coq/MathComp proof (lists; bigop algebra under an arbitrary derivation) + bit-exact float model correspondence",
     ref="DESIGN.md section 7, C16"),
  "C09": dict(
-    text="TRANSLATED CODE (Uniquifier regenerated from /repo on every run, validated against CPython): its constructor computes the model's first-occurrence de-duplication for every list of distinct objects. "
+    text="TRANSLATED CODE (Uniquifier, PureFunction.set_objparams/restore_objparams/_check_identical_objs, EditableModule unique-parameter search and setuniqueparams scatter: regenerated from /repo on every run, validated against CPython on real objects): the Uniquifier constructor computes the model's first-occurrence de-duplication for every list; set_objparams / restore_objparams ARE the model's transitions and set-then-restore gives back store, current parameters and stack; setuniqueparams = map_unique and setuniqueparams(getuniqueparams()) = id for all aliasing patterns up to 7 slots. "
          "Coq theorems over the model of the parameter de-duplication and substitution machinery: mapping the unique "
          "parameters back gives every slot its own tensor, the unique list has each distinct tensor once, aliasing is "
          "preserved under substitution, user code inside useobjparams sees in every named slot the tensor supplied for that "
@@ -193,7 +193,7 @@ CLAIMS = {
     technique="Coq proof (lists / first-occurrence de-duplication) + exact correspondence + pairwise function-kind oracle",
     ref="DESIGN.md section 7, C09"),
  "C10": dict(
-    text="TRANSLATED CODE (Uniquifier regenerated from /repo on every run, validated against CPython): its constructor computes the model's first-occurrence de-duplication for every list of distinct objects. "
+    text="TRANSLATED CODE (Uniquifier, PureFunction.set_objparams/restore_objparams/_check_identical_objs, EditableModule unique-parameter search and setuniqueparams scatter: regenerated from /repo on every run, validated against CPython on real objects): the Uniquifier constructor computes the model's first-occurrence de-duplication for every list; set_objparams / restore_objparams ARE the model's transitions and set-then-restore gives back store, current parameters and stack; setuniqueparams = map_unique and setuniqueparams(getuniqueparams()) = id for all aliasing patterns up to 7 slots. "
          "Coq theorems: every well-bracketed program of parameter substitutions, state-change locks, debug switches and "
          "user-code evaluations, with a crash at ANY evaluation or none, returns the object store, the wrapper's current "
          "parameters, the restore stack, the permission flag and the debug flag to exactly their initial values (induction on "
